@@ -5,6 +5,7 @@ pub mod model;
 pub mod monitor;
 pub mod rng;
 pub mod rollreg;
+pub mod runner;
 pub mod spy;
 
 pub use ctx::{Ctx, Tier, catch, is_marked_panic, panic_key};
